@@ -15,6 +15,7 @@ T  mazes with detours up to 7x7, coordinate systems with fractional steps / offs
 import itertools
 import json
 import math
+import os
 import random
 from fractions import Fraction
 
@@ -302,7 +303,10 @@ def handle(ctx, tally, jobs, cases, kinds, verdicts, extra):
         t = tally.by_tag.setdefault(tag.split(":")[0], [0, 0])
         t[0] += 1
         if "error" in case:
-            report(ctx, tally, "astar:call-raised", "call_raised", case, case["error"])
+            if case["error"].startswith("Timeout"):
+                report(ctx, tally, "astar:call-does-not-return", "call_does_not_return", case, case["error"])
+            else:
+                report(ctx, tally, "astar:call-raised", "call_raised", case, case["error"])
             t[1] += 1
             continue
         cl = verdicts.get(i, "missing")
@@ -358,7 +362,11 @@ def process(ctx, tally, groups, name, interp=False, parallel=8, chunk=40000, flu
         del pend[:]
         if not jobs:
             return
-        cases = core.run_jobs("astar_worker", jobs, env={"NUMBA_DISABLE_JIT": "1"} if interp else None)
+        cases = run_real(ctx, jobs, interp)
+        keep = [i for i, c in enumerate(cases) if not c.get("skipped")]
+        if len(keep) < len(jobs):
+            ctx.note("%d jobs were not executed: calls kept hanging in the worker processes" % (len(jobs) - len(keep)))
+            jobs, kinds, cases = [jobs[i] for i in keep], [kinds[i] for i in keep], [cases[i] for i in keep]
         for lo in range(0, len(jobs), chunk):
             part, pk, pj = cases[lo:lo + chunk], kinds[lo:lo + chunk], jobs[lo:lo + chunk]
             good = [i for i, c in enumerate(part) if "error" not in c]
@@ -381,6 +389,21 @@ def process(ctx, tally, groups, name, interp=False, parallel=8, chunk=40000, flu
         if sum(len(x[1]) for x in pend) >= flush_at:
             flush()
     flush()
+
+
+def run_real(ctx, jobs, interp, rounds=3):
+    """all jobs through worker processes; jobs a process skipped because an earlier call of it never returned
+    are run again in fresh processes (a few rounds)"""
+    env = {"NUMBA_DISABLE_JIT": "1"} if interp else None
+    cases = core.run_jobs("astar_worker", jobs, env=env)
+    for _ in range(rounds - 1):
+        todo = [i for i, c in enumerate(cases) if c.get("skipped")]
+        if not todo:
+            break
+        again = core.run_jobs("astar_worker", [jobs[i] for i in todo], env=env)
+        for i, c in zip(todo, again):
+            cases[i] = c
+    return cases
 
 
 def surd_cases(lim=7):
@@ -428,6 +451,10 @@ def run(ctx):
         return
     rng = random.Random(ctx.seed * 7919 + 14)
 
+    skip_m = os.environ.get("VERIF_C14_SKIP_M") == "1"      # development aid for mutation runs (M does not read /repo)
+    if skip_m:
+        ctx.note("M phase skipped (VERIF_C14_SKIP_M=1)")
+        return run_code(ctx, tally, rng)
     # ---- M0: the exact order itself
     sc = surd_cases()
     v = ctx.judge("Surd_Check", sc, name="surd_order", parallel=1, count_traces=False)
@@ -464,7 +491,10 @@ def run(ctx):
         ctx.model_check("AStar", dict(spec="Spec", invariants=inv, constants=dict(
             H=H, W=W, CONNS=conns, MUT=mut)), "neg_" + mut, workers=2, expect="violation")
     ctx.exhaustive = True
+    run_code(ctx, tally, rng)
 
+
+def run_code(ctx, tally, rng):
     # ---- R + T through the compiled public function
     rgrids = ctx.pick([(3, 3)], [(3, 3), (2, 4), (2, 5)])
     groups = [("R", layout_jobs(H, W, (4, 8), tag="replay_layouts", desc=(H == 2))) for (H, W) in rgrids]
